@@ -34,10 +34,15 @@ type site struct {
 	acc  []access
 }
 
+type extPkg struct {
+	prefix string
+	vars   map[string]bool
+}
+
 type instrumenter struct {
-	pkgVars     map[string]bool // package-level variable names
-	mapVars     map[string]bool // those whose declared type / initial value is syntactically a map
-	wordlistPkg map[*ast.File]string
+	pkgVars     map[string]bool                 // package-level variable names
+	mapVars     map[string]bool                 // those whose declared type / initial value is syntactically a map
+	extPkgs     map[*ast.File]map[string]extPkg // per file: local import name -> other package of the module
 	sites       []*site
 	unsupported map[string]bool
 	fset        *token.FileSet
@@ -46,7 +51,7 @@ type instrumenter struct {
 	topSpecs    map[*ast.ValueSpec]bool
 	pkgFuncs    map[string]bool // functions declared in the package
 	pkgMethods  map[string]bool // method names declared in the package
-	dense       bool // a scheduling point before every statement, not only those that mention package-level variables
+	dense       bool            // a scheduling point before every statement, not only those that mention package-level variables
 	hoisted     int
 	tmpN        int
 }
@@ -76,8 +81,11 @@ func (in *instrumenter) varOf(e ast.Expr) string {
 	case *ast.ParenExpr:
 		return in.varOf(x.X)
 	case *ast.SelectorExpr:
-		if id, ok := x.X.(*ast.Ident); ok && id.Obj == nil && id.Name == in.wordlistPkg[in.curAST] && in.wordlistPkg[in.curAST] != "" {
-			return "wordlist." + x.Sel.Name
+		// an exported variable of another package of the module (e.g. wordlist.English)
+		if id, ok := x.X.(*ast.Ident); ok && id.Obj == nil {
+			if ext, ok := in.extPkgs[in.curAST][id.Name]; ok && ext.vars[x.Sel.Name] {
+				return ext.prefix + "." + x.Sel.Name
+			}
 		}
 	}
 	return ""
@@ -111,7 +119,7 @@ func (in *instrumenter) reads(e ast.Expr, a *accSet) {
 			return
 		}
 		if s, ok := x.(*ast.SelectorExpr); ok {
-			if v := in.varOf(s.X); v != "" && !strings.HasPrefix(v, "wordlist.") {
+			if v := in.varOf(s.X); v != "" && !strings.Contains(v, ".") {
 				// field of a package-level struct variable: its own location, so that different
 				// fields guarded by different locks are not mistaken for one
 				a.add(v+"."+s.Sel.Name, 'R')
@@ -178,7 +186,7 @@ func (in *instrumenter) reads(e ast.Expr, a *accSet) {
 			}
 		}
 		if sel, ok := x.Fun.(*ast.SelectorExpr); ok {
-			if v := in.varOf(sel.X); v != "" && !strings.HasPrefix(v, "wordlist.") {
+			if v := in.varOf(sel.X); v != "" && !strings.Contains(v, ".") {
 				// method call on a package-level variable (e.g. Once.Do, Mutex.Lock, big.Int methods):
 				// the receiver may be mutated; no definite access is recorded
 			} else {
@@ -366,7 +374,7 @@ func (in *instrumenter) mentionsPkgObject(call *ast.CallExpr) bool {
 		}
 	}
 	if sel, ok := call.Fun.(*ast.SelectorExpr); ok {
-		if v := in.varOf(sel.X); v != "" && !strings.HasPrefix(v, "wordlist.") {
+		if v := in.varOf(sel.X); v != "" && !strings.Contains(v, ".") {
 			return true
 		}
 	}
@@ -613,161 +621,187 @@ func (in *instrumenter) nested(s ast.Stmt) {
 // instrumentPackage returns overlay entries for the instrumented package and
 // a summary for the evidence.
 func instrumentPackage(dense bool) (map[string]string, map[string]interface{}) {
-	_, vars, files, err := packageVars(repoDir, false)
-	if err != nil {
-		die("scanning %s: %v", repoDir, err)
-	}
-	in := &instrumenter{pkgVars: map[string]bool{}, mapVars: map[string]bool{}, wordlistPkg: map[*ast.File]string{}, unsupported: map[string]bool{}, fset: token.NewFileSet(), topSpecs: map[*ast.ValueSpec]bool{}, dense: dense, pkgFuncs: map[string]bool{}, pkgMethods: map[string]bool{}}
-	for _, v := range vars {
-		in.pkgVars[v] = true
-	}
-	var asts []*ast.File
-	for _, name := range files {
-		f, err := parser.ParseFile(in.fset, filepath.Join(repoDir, name), nil, parser.ParseComments)
-		if err != nil {
-			die("%v", err)
-		}
-		asts = append(asts, f)
-		for _, d := range f.Decls {
-			if fd, ok := d.(*ast.FuncDecl); ok {
-				if fd.Recv == nil {
-					in.pkgFuncs[fd.Name.Name] = true
-				} else {
-					in.pkgMethods[fd.Name.Name] = true
-				}
-			}
-		}
-		for _, d := range f.Decls {
-			gd, ok := d.(*ast.GenDecl)
-			if !ok || gd.Tok != token.VAR {
-				continue
-			}
-			for _, sp := range gd.Specs {
-				vs := sp.(*ast.ValueSpec)
-				in.topSpecs[vs] = true
-				isMap := false
-				if _, ok := vs.Type.(*ast.MapType); ok {
-					isMap = true
-				}
-				for i, id := range vs.Names {
-					m := isMap
-					if i < len(vs.Values) {
-						switch v := vs.Values[i].(type) {
-						case *ast.CompositeLit:
-							if _, ok := v.Type.(*ast.MapType); ok {
-								m = true
-							}
-						case *ast.CallExpr:
-							if fn, ok := v.Fun.(*ast.Ident); ok && fn.Name == "make" && len(v.Args) > 0 {
-								if _, ok := v.Args[0].(*ast.MapType); ok {
-									m = true
-								}
-							}
-						}
-					}
-					if m {
-						in.mapVars[id.Name] = true
-					}
-				}
-			}
-		}
-		for _, im := range f.Imports {
-			p := strings.Trim(im.Path.Value, "\"")
-			if strings.HasSuffix(p, "/internal/wordlist") {
-				n := "wordlist"
-				if im.Name != nil {
-					n = im.Name.Name
-				}
-				in.wordlistPkg[f] = n
-			}
-		}
+	pkgs := modulePackages()
+	in := &instrumenter{unsupported: map[string]bool{}, fset: token.NewFileSet(), dense: dense}
+	byImport := map[string]modPkg{}
+	for _, p := range pkgs {
+		byImport[p.importPath] = p
 	}
 	overlay := map[string]string{}
 	redirected := 0
-	for i, f := range asts {
-		name := files[i]
-		in.curFile, in.curAST = name, f
-		before := len(in.sites)
-		for _, d := range f.Decls {
-			if fd, ok := d.(*ast.FuncDecl); ok && fd.Body != nil {
-				fd.Body.List = in.stmts(fd.Body.List)
+	nvars := 0
+	for pi, p := range pkgs {
+		in.pkgVars, in.mapVars = map[string]bool{}, map[string]bool{}
+		in.extPkgs = map[*ast.File]map[string]extPkg{}
+		in.topSpecs = map[*ast.ValueSpec]bool{}
+		in.pkgFuncs, in.pkgMethods = map[string]bool{}, map[string]bool{}
+		for _, v := range p.vars {
+			in.pkgVars[v] = true
+		}
+		nvars += len(p.vars)
+		firstSite := len(in.sites)
+		var asts []*ast.File
+		for _, name := range p.files {
+			f, err := parser.ParseFile(in.fset, filepath.Join(p.dir, name), nil, parser.ParseComments)
+			if err != nil {
+				die("%v", err)
+			}
+			asts = append(asts, f)
+			for _, d := range f.Decls {
+				if fd, ok := d.(*ast.FuncDecl); ok {
+					if fd.Recv == nil {
+						in.pkgFuncs[fd.Name.Name] = true
+					} else {
+						in.pkgMethods[fd.Name.Name] = true
+					}
+				}
+			}
+			for _, d := range f.Decls {
+				gd, ok := d.(*ast.GenDecl)
+				if !ok || gd.Tok != token.VAR {
+					continue
+				}
+				for _, sp := range gd.Specs {
+					vs := sp.(*ast.ValueSpec)
+					in.topSpecs[vs] = true
+					isMap := false
+					if _, ok := vs.Type.(*ast.MapType); ok {
+						isMap = true
+					}
+					for i, id := range vs.Names {
+						m := isMap
+						if i < len(vs.Values) {
+							switch v := vs.Values[i].(type) {
+							case *ast.CompositeLit:
+								if _, ok := v.Type.(*ast.MapType); ok {
+									m = true
+								}
+							case *ast.CallExpr:
+								if fn, ok := v.Fun.(*ast.Ident); ok && fn.Name == "make" && len(v.Args) > 0 {
+									if _, ok := v.Args[0].(*ast.MapType); ok {
+										m = true
+									}
+								}
+							}
+						}
+						if m {
+							in.mapVars[id.Name] = true
+						}
+					}
+				}
+			}
+			in.extPkgs[f] = map[string]extPkg{}
+			for _, im := range f.Imports {
+				ip := strings.Trim(im.Path.Value, "\"")
+				if other, ok := byImport[ip]; ok && other.importPath != p.importPath {
+					n := other.name
+					if im.Name != nil {
+						n = im.Name.Name
+					}
+					ev := map[string]bool{}
+					for _, v := range other.exported {
+						ev[v] = true
+					}
+					in.extPkgs[f][n] = extPkg{prefix: filepath.Base(other.rel), vars: ev}
+				}
 			}
 		}
-		ast.Inspect(f, func(n ast.Node) bool {
-			switch n.(type) {
-			case *ast.ChanType:
-				in.unsupported["channel type"] = true
-			}
-			if se, ok := n.(*ast.SelectorExpr); ok {
-				if id, ok := se.X.(*ast.Ident); ok && id.Name == "sync" && (se.Sel.Name == "Cond" || se.Sel.Name == "NewCond") {
-					in.unsupported["sync.Cond"] = true
+		for i, f := range asts {
+			name := p.files[i]
+			in.curFile, in.curAST = name, f
+			before := len(in.sites)
+			for _, d := range f.Decls {
+				if fd, ok := d.(*ast.FuncDecl); ok && fd.Body != nil {
+					fd.Body.List = in.stmts(fd.Body.List)
 				}
 			}
-			return true
-		})
-		changed := len(in.sites) > before
-		for _, im := range f.Imports {
-			switch im.Path.Value {
-			case `"sync"`:
-				im.Path.Value = `"verifshim/vsync"`
-				if im.Name == nil {
-					im.Name = ast.NewIdent("sync")
+			ast.Inspect(f, func(n ast.Node) bool {
+				switch n.(type) {
+				case *ast.ChanType:
+					in.unsupported["channel type"] = true
 				}
-				changed = true
-				redirected++
-			case `"sync/atomic"`:
-				im.Path.Value = `"verifshim/vatomic"`
-				if im.Name == nil {
-					im.Name = ast.NewIdent("atomic")
+				if se, ok := n.(*ast.SelectorExpr); ok {
+					if id, ok := se.X.(*ast.Ident); ok && id.Name == "sync" && (se.Sel.Name == "Cond" || se.Sel.Name == "NewCond") {
+						in.unsupported["sync.Cond"] = true
+					}
 				}
-				changed = true
-				redirected++
+				return true
+			})
+			changed := len(in.sites) > before
+			for _, im := range f.Imports {
+				switch im.Path.Value {
+				case `"sync"`:
+					im.Path.Value = `"verifshim/vsync"`
+					if im.Name == nil {
+						im.Name = ast.NewIdent("sync")
+					}
+					changed = true
+					redirected++
+				case `"sync/atomic"`:
+					im.Path.Value = `"verifshim/vatomic"`
+					if im.Name == nil {
+						im.Name = ast.NewIdent("atomic")
+					}
+					changed = true
+					redirected++
+				}
 			}
+			if !changed {
+				continue
+			}
+			if len(in.sites) > before {
+				spec := &ast.ImportSpec{Name: ast.NewIdent("verifvsched"), Path: &ast.BasicLit{Kind: token.STRING, Value: `"verifshim/vsched"`}}
+				decl := &ast.GenDecl{Tok: token.IMPORT, Specs: []ast.Spec{spec}}
+				// imports must come first
+				f.Decls = append([]ast.Decl{decl}, f.Decls...)
+				f.Imports = append(f.Imports, spec)
+			}
+			var b bytes.Buffer
+			if err := format.Node(&b, in.fset, f); err != nil {
+				die("printing instrumented %s: %v", name, err)
+			}
+			tag := "instr_"
+			if dense {
+				tag = "instrd_"
+			}
+			dst := filepath.Join(scratch, fmt.Sprintf("%s%d_%s", tag, pi, name))
+			if pi == 0 {
+				dst = filepath.Join(scratch, tag+name)
+			}
+			if err := os.WriteFile(dst, b.Bytes(), 0644); err != nil {
+				die("%v", err)
+			}
+			overlay[filepath.Join(p.dir, name)] = dst
 		}
-		if !changed {
+		if len(in.sites) == firstSite {
 			continue
 		}
-		if len(in.sites) > before {
-			spec := &ast.ImportSpec{Name: ast.NewIdent("verifvsched"), Path: &ast.BasicLit{Kind: token.STRING, Value: `"verifshim/vsched"`}}
-			decl := &ast.GenDecl{Tok: token.IMPORT, Specs: []ast.Spec{spec}}
-			// imports must come first
-			f.Decls = append([]ast.Decl{decl}, f.Decls...)
-			f.Imports = append(f.Imports, spec)
-		}
+		// site table of this package
 		var b bytes.Buffer
-		if err := format.Node(&b, in.fset, f); err != nil {
-			die("printing instrumented %s: %v", name, err)
+		b.WriteString("// Code generated by vcheck (instrumenter); never written into the repository.\n\n//go:build verif\n// +build verif\n\npackage " + p.name + "\n\nimport verifvsched \"verifshim/vsched\"\n\nfunc init() {\n")
+		for _, st := range in.sites[firstSite:] {
+			file := st.file
+			if pi != 0 {
+				file = filepath.ToSlash(filepath.Join(p.rel, st.file))
+			}
+			fmt.Fprintf(&b, "\tverifvsched.RegisterSite(%d, %q, %d, []verifvsched.Access{", st.id, file, st.line)
+			for _, a := range st.acc {
+				fmt.Fprintf(&b, "{Var: %q, Kind: %q}, ", a.Var, a.Kind)
+			}
+			b.WriteString("})\n")
 		}
-		tag := "instr_"
+		b.WriteString("}\n")
+		genName := fmt.Sprintf("zz_verif_sites_gen_%d.go", pi)
 		if dense {
-			tag = "instrd_"
+			genName = fmt.Sprintf("zz_verif_sites_dense_gen_%d.go", pi)
 		}
-		dst := filepath.Join(scratch, tag+name)
-		if err := os.WriteFile(dst, b.Bytes(), 0644); err != nil {
+		gen := filepath.Join(scratch, genName)
+		if err := os.WriteFile(gen, b.Bytes(), 0644); err != nil {
 			die("%v", err)
 		}
-		overlay[filepath.Join(repoDir, name)] = dst
+		overlay[filepath.Join(p.dir, "zz_verif_sites_gen.go")] = gen
 	}
-	// site table
-	var b bytes.Buffer
-	b.WriteString("// Code generated by vcheck (instrumenter); never written into the repository.\n\n//go:build verif\n// +build verif\n\npackage bip39\n\nimport verifvsched \"verifshim/vsched\"\n\nfunc init() {\n")
-	for _, s := range in.sites {
-		fmt.Fprintf(&b, "\tverifvsched.RegisterSite(%d, %q, %d, []verifvsched.Access{", s.id, s.file, s.line)
-		for _, a := range s.acc {
-			fmt.Fprintf(&b, "{Var: %q, Kind: %q}, ", a.Var, a.Kind)
-		}
-		b.WriteString("})\n")
-	}
-	b.WriteString("}\n")
-	genName := "zz_verif_sites_gen.go"
-	if dense {
-		genName = "zz_verif_sites_dense_gen.go"
-	}
-	gen := filepath.Join(scratch, genName)
-	if err := os.WriteFile(gen, b.Bytes(), 0644); err != nil {
-		die("%v", err)
-	}
-	overlay[filepath.Join(repoDir, "zz_verif_sites_gen.go")] = gen
+	vars := make([]string, nvars)
 	var uns []string
 	for k := range in.unsupported {
 		uns = append(uns, k)
@@ -785,6 +819,7 @@ func instrumentPackage(dense bool) (map[string]string, map[string]interface{}) {
 	}
 	info := map[string]interface{}{
 		"instrumented_sites":                        len(in.sites),
+		"packages_instrumented":                     len(pkgs),
 		"nested_calls_on_package_objects_split_out": in.hoisted,
 		"sync_imports_redirected":                   redirected,
 		"unmodelled_sync_constructs":                uns,
